@@ -296,7 +296,28 @@ def corr(ctx):
     corr_context(ctx)
 
 
+def search_line_patterns(ctx):
+    """a `path:line` pattern restricts lines of the files its path part selects - matched like every other pattern (relative or absolute
+    path), not by the bare file name: `a.py:3` says nothing about `x/a.py` (C05_line_exclude_keeps_file; the matcher itself is C13's)"""
+    import importlib
+    c13 = importlib.import_module("props.c13")
+    cases = [{"glob": g, "mode": m} for g in ("a.py", "mod.py", "pkg/mod.py", "*/a.py") for m in ("exclude", "include")]
+    for c, r in zip(cases, impl.pool_map(c13.glob_case, cases)):
+        if r[0] != "ok":
+            ctx.broke("c05 line-pattern harness", r[1]); continue
+        r = r[1]
+        for f, (rewritten, exp, m_rel, m_abs) in r["files"].items():
+            ctx.search_case("cli-line-pattern", {"glob": c["glob"], "mode": c["mode"], "file": f}, m_rel or m_abs)
+            if r["rc"] != ["exit", 0]:
+                ctx.fail({"kind": "cli-crash", "mode": "line-pattern"}, f"CLI failed {r['rc']}", {"case": c})
+            elif rewritten != exp:
+                ctx.fail({"kind": "line-pattern-reaches-other-file", "mode": c["mode"], "glob": c["glob"]},
+                         f"--path-{c['mode']} '{c['glob']}:3': {f} line 3 {'was' if rewritten else 'was not'} rewritten, expected {'rewritten' if exp else 'left alone'} "
+                         f"(the pattern matches the file's relative path: {m_rel})", {"case": c, "file": f})
+
+
 def search(ctx):
+    search_line_patterns(ctx)
     cases = [{"seed": ctx.rng.randint(0, 10**9), "mode": m} for m in ["ff"] * ctx.pick(24, 160) + ["sast"] * ctx.pick(16, 100) + ["dep"] * ctx.pick(6, 30)]
     cases += [{"seed": ctx.rng.randint(0, 10**9), "mode": "ffsg"} for _ in range(ctx.pick(4, 24))]
     cases += [{"seed": ctx.rng.randint(0, 10**9), "mode": "ffsg", "exclude_all_triggers": True} for _ in range(ctx.pick(2, 8))]
